@@ -29,8 +29,8 @@ RULE = ('bfs depth<=2; transitions = requests issued; a raising transition is no
 ASSUMPTIONS = ['FST objects passed as code are built fresh for every request (they are consumed)',
                'KeyboardInterrupt-like asynchronous faults are out of scope']
 BOUNDS = {
-    'quick': '49 programs; depth 1: full fault alphabet (25 fault kinds at every node/list field and at the root) + 1-code edit alphabet; '
-             'depth 2: after every distinct valid first edit (replace, remove, insert, slice put, comment put), the reduced (lite) fault alphabet',
+    'quick': '52 programs; depth 1: full fault alphabet (27 fault kinds at every node/list field and at the root) + 1-code edit alphabet; '
+             'depth 2 (programs under 90 characters): after every distinct valid first edit (replace, remove, insert, slice put, comment put), the reduced (lite) fault alphabet',
     'thorough': 'quick + depth 2 after the 3-code alphabet with 2 forms, faults with all option settings',
 }
 
@@ -88,6 +88,9 @@ def enumerate_faults(src, tree=None, lite=False):
         ncls = node.__class__.__name__
         if not lite:
             yield {'op': 'fault', 'fault': 'unknown-field', 'path': p}
+        if isinstance(node, (ast.expr, ast.pattern)) and not lite:
+            yield {'op': 'fault', 'fault': 'unpar-bad-arg', 'path': p, 'text': 'tuple'}   # invalid value of a keyword argument:
+            yield {'op': 'fault', 'fault': 'par-bad-arg', 'path': p, 'text': 'sometimes'}  # validate first, then touch the source
         if ncls in ('Call', 'ClassDef'):  # code that parses but is refused for category / ordering reasons (after the target was prepared)
             vf = '_args' if ncls == 'Call' else '_bases'
             yield {'op': 'fault', 'fault': 'arglike-order', 'path': p, 'field': vf, 'text': 'k=v', 'idx': 0}
@@ -152,6 +155,15 @@ def apply(fst, root, op):
         return n.put('x', op['idx'], op['field'], norm=True)
     if k == 'reversed':
         return n.put_slice(E.K_SEQ.get(op['typ'], [('x', None)])[0][0], op['start'], op['stop'], op['field'], norm=True)
+    if k == 'unpar-bad-arg':
+        n.unpar(node=op['text'])
+        raise ValueError('unpar() accepted an invalid node= argument')  # it has to refuse: count an acceptance as the fault
+    if k == 'par-bad-arg':
+        n.par(force=op['text'])
+        raise ValueError('par() accepted an invalid force= argument')
+    if k == 'pars-bad-arg':
+        n.pars(shared='maybe')
+        return None
     if k == 'arglike-order':
         return n.put_slice(op['text'], op['idx'], op['idx'], op['field'], norm=True)
     if k == 'slice-bad-code':
@@ -304,7 +316,7 @@ def run_shard(desc, tier, res):
     orig = E.apply
     E.apply = lambda f, r, o: apply(f, r, o)  # noqa: E731
     try:
-        XX.bfs(fst, src0, 2, [a1, a2], tuple(desc['part']), res, on_state, on_raise=on_raise,
+        XX.bfs(fst, src0, 2 if (tier == 'thorough' or len(src0) < 90) else 1, [a1, a2], tuple(desc['part']), res, on_state, on_raise=on_raise,
                cid_prefix=f"C12/p{desc['prog']}/", enum=enum)
     finally:
         E.apply = orig
